@@ -138,6 +138,11 @@ Next == \/ \E c \in Ctx : Start(c)
 
 Causal == ok
 
+(* generator by exhaustive search (GenBadRollback.cfg): Record = TRUE with the program text hidden from    *)
+(* the fingerprint, so TLC visits every history-free state once and each bad final state emits the        *)
+(* program of the first path that reached it (run with -workers 1: breadth-first, deterministic).          *)
+GenView == <<S, cur, k, total, nops, reads, wrote, val, wval, chq, tq, ctaken, ttaken, csent, tsent, wlog, ok, emitted>>
+
 (* what the repaired runtime guarantees for the clock of a variable: no step makes it smaller -- in       *)
 (* particular an aborted attempt leaves it at least at the clock logged for the last commit that touched  *)
 (* the variable. Holds for Fix = "none" and "vars"; the seeded variant "vars-rollback" breaks it.         *)
